@@ -285,7 +285,7 @@ theorem saveMainGo_frame : ∀ (hs : List HData) (r : Repo) (file height : Int) 
 theorem saveMain_frame (r r2 : Repo) (h : saveMainBranch r = .ok r2) :
     r2.arena = r.arena ∧ r2.branches = r.branches ∧ r2.longest = r.longest ∧ r2.heights = r.heights ∧
     r2.invalid = r.invalid ∧ r2.cfg = r.cfg := by
-  unfold saveMainBranch at h
+  unfold saveMainBranch saveMainStart at h
   simp only at h
   split at h
   · cases h
@@ -866,7 +866,7 @@ theorem saveMainGo_spec : ∀ (hs : List HData) (r : Repo) (fn : Nat) (buf done 
 theorem saveMain_files (r r2 : Repo) (hph : (r.br r.longest).parentHeight = -1) (hoff : (r.br r.longest).offset = 1)
     (h : saveMainBranch r = .ok r2) :
     FilesOK r2.store.main (r.br r.longest).headers (r.br r.longest).headers.length := by
-  unfold saveMainBranch at h
+  unfold saveMainBranch saveMainStart at h
   simp only at h
   have hpl : (r.br r.longest).prunedLowest = 0 := by unfold Branch.prunedLowest; omega
   have hno : ¬ ((r.br r.longest).offset ≠ 1 ∧
